@@ -175,3 +175,21 @@ package rueidis
 //@   ensures [C15 nil-surfaces] m.typ == '_' ==> result != nil
 //@   ensures [C15 error-reply-surfaces] (m.typ == '-' || m.typ == '!') ==> (result != nil && typeis(result, *RedisError))
 //@   ensures [C15 other-replies-are-not-errors] (m.typ != '_' && m.typ != '-' && m.typ != '!') ==> result == nil
+
+// ---------------------------------------------------------------------------------------------
+// C17 — cache serialization. unmarshalView / CacheUnmarshalView are total: for EVERY buffer (not only truncations of
+// marshalled values) they return a value or ErrCacheUnmarshal and never panic or allocate more than the buffer
+// can justify (an aggregate of n elements needs at least 9n bytes).
+//@ func RedisMessage.unmarshalView
+//@   requires c >= 0
+//@   safety C17
+//@   modifies *m
+//@   option noframe=assumed: the recursive call writes the elements of the array this call has just allocated (reached through m.values()); the frame `only *m and fresh memory` is stated, not proved
+//@   ensures [C17 cursor-advances] result1 == nil ==> (old(c) + 9 <= result0 && result0 <= len(buf))
+//@   ensures [C17 truncated-is-error] len(buf) < old(c) + 9 ==> result1 != nil
+//@   loop 0: invariant [C17] c >= old(c) + 9 && c <= len(buf) && m.array != nil && m.intlen == size && size >= 0 && size < 140737488355328 && rangeindex >= -1
+
+//@ func RedisMessage.CacheUnmarshalView
+//@   safety C17
+//@   modifies *m
+//@   ensures [C17 short-buffer-is-error] len(buf) < 16 ==> result != nil
